@@ -142,7 +142,8 @@ class LifeDomain(Domain):
     def init_state(self, st, func, cls):
         st.data.update(sites=[], acts=[], conds=[], rowloops={}, tblloops={},
                        vacated=set(), rows_gone=set(), wipes=[], itercount={},
-                       queue=[], selfreg=[], summary_calls=[], tbl_log=[])
+                       queue=[], selfreg=[], summary_calls=[], tbl_log=[],
+                       replace_calls=[])
 
     # ------------------------------------------------------------------
     def for_counts(self, st, node, itersym):
@@ -462,6 +463,24 @@ class LifeDomain(Domain):
                 for ex in live])
         else:
             vac, gone = set(), set()
+        a = [norm(x) for x in cn.args]
+        guard = None
+        if summ.name == 'remove_component' and len(a) >= 2:
+            guard = [f'{a[1]} in self._entities.get({a[0]}, {{}})',
+                     f'{a[1]} in self._entities[{a[0]}]']
+            slot = (a[0], a[1])
+        elif summ.name == 'remove_processor' and len(a) >= 1:
+            guard = [f'{a[0]} in self._processors']
+            slot = a[0]
+        guarded = None
+        if guard is not None:
+            guarded = False
+            for g in guard:
+                m = st.memo.get(g)
+                if m is not None and m[0] is True and all(
+                        st.versions.get(f, 0) == v for f, v in m[1]):
+                    guarded = True
+            st.data['replace_calls'].append((slot, guarded, ev.node, fn))
         for t in summ.tables:
             self._log(st, t, 'summary', None, None)
             st.bump(t)
@@ -617,6 +636,26 @@ def check_path(st, func, results, problems):
                     'why': 'store into an occupied slot is possible: neither '
                            'a detach of the previous occupant nor a proof of '
                            'absence precedes it on this path',
+                    'path': path_summary(st)})
+    for slot, guarded, node, fn in data['replace_calls']:
+        for s in sites:
+            if s.kind != 'attach':
+                continue
+            sslot = (s.e, s.T) if s.table == 'self._entities' else s.T
+            if sslot != slot:
+                continue
+            key = ('replace-exact', fn, norm(node), node.lineno, 'attach',
+                   s.table)
+            r = results.setdefault(key, {'ok': 0, 'bad': []})
+            if guarded:
+                r['ok'] += 1
+            else:
+                r['bad'].append({
+                    'why': 'the replacement removes by type query without '
+                           'knowing that an object of exactly this type is '
+                           'present: when none is, the subclass walk detaches '
+                           'an object of a subtype instead (which is not being '
+                           'replaced)',
                     'path': path_summary(st)})
     for obj, ss in by_obj.items():
         localp = []
